@@ -141,7 +141,7 @@ func c17Corruptions(seed string) []string {
 	out = append(out,
 		"vers:"+strings.ToUpper(scheme)+"/"+cons, "vers:"+strings.ToUpper(scheme[:1])+scheme[1:]+"/"+cons,
 		"VERS:"+rest, "Vers:"+rest, "ver:"+rest, "vers;"+rest, "vers"+rest, " vers:"+rest, "vers :"+rest, "vers:/"+cons, "vers:"+scheme, "vers:"+scheme+"/", "vers:"+scheme+"/|", "vers:"+scheme+"/ | ",
-		"vers:"+scheme+"//"+cons, "vers:"+scheme+"/*|"+cons, "vers:"+scheme+"/"+cons+"|*", "vers:"+scheme+"/*|*", "vers:"+scheme+"/* | *",
+		"vers:"+scheme+"//"+cons, "vers:"+scheme+"/*|"+cons, "vers:"+scheme+"/"+cons+"|*", "vers:"+scheme+"/* |"+cons, "vers:"+scheme+"/ *|"+cons, "vers:"+scheme+"/ * |"+cons, "vers:"+scheme+"/"+cons+"| *", "vers:"+scheme+"/"+cons+"|* ", "vers:"+scheme+"/* |>=not a version", "vers:"+scheme+"/*|*", "vers:"+scheme+"/* | *",
 	)
 	for _, m := range [][2]string{{">=", "=>"}, {"<=", "=<"}, {"!=", "<>"}, {"=", "=="}, {">=", ">>"}, {"<", "<<"}, {">=", "~>"}, {">=", "^"}, {">=", ""}, {"<", ""}, {"!=", "!"}} {
 		if strings.Contains(cons, m[0]) {
